@@ -137,6 +137,17 @@ def refill (b : Buf) (nmin : Nat) : St × Buf :=
     | none => (.fault, b)
     | some b1 => load (grow b1)
 
+/-- `buffer_refill` as it was BEFORE fix 188d0b6 (no `bf->stable`: shift and `ESL_REALLOC` whatever anchor is set); kept for
+    the regression theorems `stable_ptr_valid_fails_at` / `refill0_stable_iff` about that variant -/
+def refill0 (b : Buf) (nmin : Nat) : St × Buf :=
+  if !b.hasfp || b.eof then (if b.pos < b.n then .ok else .eof, b)
+  else if b.n - b.pos ≥ nmin + b.pagesize ∧ b.pos ≤ b.n then (.ok, b)
+  else if b.pos > b.n then (.einconceivable, b)
+  else
+    match shiftLeft0 b with
+    | none => (.fault, b)
+    | some b1 => load (grow0 b1)
+
 /-! ## anchors -/
 
 def setAnchor (b : Buf) (offset : Nat) : St × Buf :=
